@@ -7,9 +7,11 @@ MODULES = [
     'contracts.shared_task',
     'contracts.c05_queues',
     'contracts.c05_replay',
+    'contracts.c26_pool',
+    'contracts.c26_replay',
 ]
 
-EXTRA_CHECKS = {}
+EXTRA_CHECKS = {'C26': ['contracts.c26_census:check']}
 
 EXPECTED_MIN_OBLIGATIONS = {'C18': 150}
 
